@@ -412,3 +412,145 @@ package db
 //@   assert before call#1 validateOneToOneLinkDoesntAlreadyExist: arg0 == c && arg2 == res(String, 2, 0) && arg3 == res(GetFieldByName, 1, 0) && arg4 == res(Value, 1, 0)
 //@   assert before call#1 NewDocField: arg2 == res(GetValueWithField, 1, 0)
 //@   tags C09
+//@
+//@ // ===== C07: the secondary indexes are maintained on every local write path and after every merge =====
+//@ // -- maintenance dominance: the index update that belongs to a write happens, with the same document,
+//@ //    before the write is applied, on every path that reaches the write
+//@ func (*collection).Delete
+//@   assert before call#1 applyDelete: called(deleteIndexedDocWithID, 1) && res(deleteIndexedDocWithID, 1, 0) == nil && callarg(deleteIndexedDocWithID, 1, 2) == docID && arg2 == res(getPrimaryKeyFromDocID, 1, 0) && callarg(getPrimaryKeyFromDocID, 1, 2) == docID
+//@   tags C07
+//@ func (*collection).deleteWithFilter
+//@   assert before call#1 applyDelete: called(deleteIndexedDocWithID, 1) && res(deleteIndexedDocWithID, 1, 0) == nil && callarg(deleteIndexedDocWithID, 1, 2) == res(NewDocIDFromString, 1, 0) && res(NewDocIDFromString, 1, 1) == nil && callarg(NewDocIDFromString, 1, 0) == res(GetID, 1, 0) && arg2.DocID == res(GetID, 1, 0)
+//@   tags C07
+//@ func (*collection).create -> (err)
+//@   assert before call#1 indexNewDoc: arg2 == doc && called(save, 1) && res(save, 1, 0) == nil && callarg(save, 1, 2) == doc
+//@   ensures err == nil ==> called(indexNewDoc, 1) && res(indexNewDoc, 1, 0) == nil
+//@   tags C07
+//@ func (*collection).save
+//@   assert before call#1 AddDelta: !isCreate ==> called(updateIndexedDoc, 1) && res(updateIndexedDoc, 1, 0) == nil && callarg(updateIndexedDoc, 1, 2) == doc
+//@   assert before call#2 AddDelta: !isCreate ==> called(updateIndexedDoc, 1) && res(updateIndexedDoc, 1, 0) == nil && callarg(updateIndexedDoc, 1, 2) == doc
+//@   tags C07
+//@ // -- every index of the collection is visited, with the document(s) in question
+//@ func (*collection).indexNewDoc -> (err)
+//@   assert before call#1 Save: arg2 == doc && arg0 == rangeslice1[rangeindex1+1]
+//@   loop 1 every-iteration call#1 Save
+//@   ensures err == nil ==> exhausted(1)
+//@   tags C07
+//@ func (*collection).deleteIndexedDoc -> (err)
+//@   assert before call#1 Delete: arg2 == doc && arg0 == rangeslice1[rangeindex1+1]
+//@   loop 1 every-iteration call#1 Delete
+//@   ensures err == nil ==> exhausted(1)
+//@   tags C07
+//@ func (*collection).updateIndexedDoc -> (err)
+//@   assert before call#1 Update: arg2 == res(get, 1, 0) && arg3 == doc && arg0 == rangeslice1[rangeindex1+1] && res(get, 1, 1) == nil
+//@   assert before call#1 get: arg2 == res(getPrimaryKeyFromDocID, 1, 0) && !arg4
+//@   loop 1 every-iteration call#1 Update
+//@   ensures err == nil ==> exhausted(1)
+//@   tags C07
+//@ func (*collection).deleteIndexedDocWithID -> (err)
+//@   assert before call#1 deleteIndexedDoc: arg2 == res(get, 1, 0) && res(get, 1, 1) == nil
+//@   assert before call#1 get: arg2 == res(getPrimaryKeyFromDocID, 1, 0) && callarg(getPrimaryKeyFromDocID, 1, 2) == docID && !arg4
+//@   ensures err == nil ==> called(deleteIndexedDoc, 1)
+//@   tags C07
+//@ func (*collection).updateDocIndex -> (err)
+//@   assert before call#1 deleteIndexedDoc: arg2 == oldDoc
+//@   assert before call#1 indexNewDoc: arg2 == newDoc && res(deleteIndexedDoc, 1, 0) == nil
+//@   ensures err == nil ==> called(indexNewDoc, 1)
+//@   tags C07
+//@ // -- after a merge: a document that is new gets its entries, one that disappeared loses the entries of
+//@ //    its old state, one that changed has them replaced; a document that neither was nor is there has none
+//@ func syncIndexedDoc -> (err)
+//@   assert before call#1 indexNewDoc: arg2 == res(Get, 2, 0) && res(Get, 2, 1) == nil && is(res(Get, 1, 1), client.ErrDocumentNotFoundOrNotAuthorized)
+//@   assert before call#1 deleteIndexedDoc: arg2 == res(Get, 1, 0) && res(Get, 1, 1) == nil && is(res(Get, 2, 1), client.ErrDocumentNotFoundOrNotAuthorized)
+//@   assert before call#1 updateDocIndex: arg2 == res(Get, 1, 0) && arg3 == res(Get, 2, 0) && res(Get, 1, 1) == nil && res(Get, 2, 1) == nil
+//@   assert before call#1 Get: arg2 == docID && !arg3
+//@   assert before call#2 Get: arg2 == docID && !arg3 && arg1 == ctx
+//@   ensures err == nil ==> called(indexNewDoc, 1) || called(deleteIndexedDoc, 1) || called(updateDocIndex, 1) || (is(res(Get, 1, 1), client.ErrDocumentNotFoundOrNotAuthorized) && is(res(Get, 2, 1), client.ErrDocumentNotFoundOrNotAuthorized))
+//@   tags C07
+//@ func (*DB).executeMerge
+//@   assert before call#1 Commit: exhausted(1)
+//@   assert before call#1 syncIndexedDoc: arg2 == col && arg1 == res(NewDocIDFromString, 1, 0) && res(NewDocIDFromString, 1, 1) == nil
+//@   loop 1 every-iteration call#1 syncIndexedDoc
+//@   tags C07
+//@
+//@ // -- entry symmetry: Save and Delete of an index derive the keys of a document through the same
+//@ //    generator with the same docID flag, and write / remove exactly the key they are handed
+//@ extern (*keys.IndexDataStoreKey).Bytes(k) -> (b)
+//@   pure
+//@   nodefault
+//@ extern (*keys.IndexDataStoreKey).ToString(k) -> (s)
+//@   pure
+//@   nodefault
+//@ func (*collectionSimpleIndex).Save -> (err)
+//@   assert before call#1 generateKeysAndProcess: arg2 == doc && arg3
+//@   tags C07
+//@ func (*collectionSimpleIndex).Delete -> (err)
+//@   assert before call#1 generateKeysAndProcess: arg2 == doc && arg3
+//@   tags C07
+//@ func (*collectionSimpleIndex).Save$1 -> (err)
+//@   assert before call#1 Set: *callarg(IndexDataStoreKey.Bytes, 1, 0) == key && sameslice(arg2, res(IndexDataStoreKey.Bytes, 1, 0)) && len(arg3) == 0
+//@   tags C07
+//@ func (*collectionSimpleIndex).Delete$1 -> (err)
+//@   assert before call#1 deleteIndexKey: arg2 == key
+//@   tags C07
+//@ func (*collectionBaseIndex).deleteIndexKey -> (err)
+//@   assert before call#1 Delete: *callarg(IndexDataStoreKey.Bytes, 2, 0) == key && sameslice(arg2, res(IndexDataStoreKey.Bytes, 2, 0)) && res(Has, 1, 0) && res(Has, 1, 1) == nil
+//@   assert before call#1 Has: *callarg(IndexDataStoreKey.Bytes, 1, 0) == key && sameslice(arg2, res(IndexDataStoreKey.Bytes, 1, 0))
+//@   ensures err == nil ==> called(Delete, 1)
+//@   tags C07
+//@ func (*collectionSimpleIndex).Update -> (err)
+//@   assert before call#1 Delete: arg2 == oldDoc && arg0 == index
+//@   assert before call#1 Save: arg2 == newDoc && arg0 == index && res(Delete, 1, 0) == nil
+//@   ensures err == nil ==> called(Save, 1)
+//@   tags C07
+//@ func (*collectionUniqueIndex).Save -> (err)
+//@   assert before call#1 generateKeysAndProcess: arg2 == doc && !arg3
+//@   tags C07
+//@ func (*collectionUniqueIndex).Delete -> (err)
+//@   assert before call#1 generateKeysAndProcess: arg2 == doc && !arg3
+//@   tags C07
+//@ func (*collectionUniqueIndex).Save$1 -> (err)
+//@   assert before call#1 addNewUniqueKey: arg1 == doc && arg2 == key
+//@   tags C07
+//@ func (*collectionUniqueIndex).Delete$1 -> (err)
+//@   assert before call#1 makeUniqueKeyValueRecord: arg0 == key && arg1 == doc
+//@   assert before call#1 Delete: *callarg(IndexDataStoreKey.Bytes, 1, 0) == res(makeUniqueKeyValueRecord, 1, 0) && sameslice(arg2, res(IndexDataStoreKey.Bytes, 1, 0))
+//@   tags C07
+//@ func (*collectionUniqueIndex).Update -> (err)
+//@   assert before call#1 Delete: arg2 == oldDoc && arg0 == index
+//@   assert before call#1 Save: arg2 == newDoc && arg0 == index && res(Delete, 1, 0) == nil
+//@   assert before call#1 isUpdatingIndexedFields: arg1 == oldDoc && arg2 == newDoc
+//@   ensures err == nil ==> called(Save, 1) || !res(isUpdatingIndexedFields, 1, 0)
+//@   tags C07
+//@ // -- unique admission: the record of a key without nil field is (key -> docID); it is written only after
+//@ //    the store was asked and did not have that key; a present key is an error
+//@ func addNewUniqueKey -> (err)
+//@   assert before call#1 makeUniqueKeyValueRecord: arg0 == key && arg1 == doc
+//@   assert before call#1 validateUniqueKeyValue: arg1 == res(makeUniqueKeyValueRecord, 1, 0) && sameslice(arg2, res(makeUniqueKeyValueRecord, 1, 1)) && arg3 == doc
+//@   assert before call#1 Set: res(validateUniqueKeyValue, 1, 0) == nil && *callarg(IndexDataStoreKey.Bytes, 1, 0) == res(makeUniqueKeyValueRecord, 1, 0) && sameslice(arg2, res(IndexDataStoreKey.Bytes, 1, 0)) && sameslice(arg3, res(makeUniqueKeyValueRecord, 1, 1))
+//@   ensures err == nil ==> called(Set, 1)
+//@   tags C07
+//@ func validateUniqueKeyValue -> (err)
+//@   assert before call#1 Has: *callarg(IndexDataStoreKey.Bytes, 1, 0) == key && sameslice(arg2, res(IndexDataStoreKey.Bytes, 1, 0))
+//@   ensures err == nil && len(val) != 0 ==> called(Has, 1) && !res(Has, 1, 0) && res(Has, 1, 1) == nil
+//@   tags C07
+//@ func makeUniqueKeyValueRecord -> (k, v, err)
+//@   ensures err == nil
+//@   ensures res(hasIndexKeyNilField, 1, 0) ==> len(v) == 0 && len(k.Fields) == len(key.Fields) + 1
+//@   ensures !res(hasIndexKeyNilField, 1, 0) ==> k == key
+//@   tags C07
+//@ apply ErrFlow: (*collectionSimpleIndex).Save, (*collectionSimpleIndex).Delete, (*collectionSimpleIndex).Update,
+//@   (*collectionUniqueIndex).Save, (*collectionUniqueIndex).Delete, (*collectionUniqueIndex).Update,
+//@   addNewUniqueKey, validateUniqueKeyValue, (*collectionBaseIndex).deleteIndexKey, (*collectionBaseIndex).generateKeysAndProcess,
+//@   (*collectionSimpleIndex).Save$1, (*collectionSimpleIndex).Delete$1, (*collectionUniqueIndex).Save$1, (*collectionUniqueIndex).Delete$1
+//@ // reads the key only (its heap frame is assumed in this lenient unit, see DESIGN 9.1)
+//@ extern (client.NormalValue).IsNil(v) -> (r)
+//@   pure
+//@   nodefault
+//@ func hasIndexKeyNilField -> (r)
+//@   tags C07
+//@ // a duplicate is always reported as an error
+//@ func newUniqueIndexError -> (err)
+//@   ensures err != nil
+//@   modifies failed
+//@   tags C07
